@@ -196,7 +196,20 @@ func Worker(arg string) int {
 		tasks[i] = t
 		taskIdx[t.Name] = i
 	}
-	tr, err := runner.NewTaskRunner()
+	// every other task runs in a named context whose start-up and before hook leave ".start" markers
+	// too: a run that is refused (called after the cancellation) must not get as far as those
+	ctxs := map[string]*runner.ExecutionContext{
+		"cx": runner.NewExecutionContext(nil, "", variables.NewVariables(),
+			[]string{fmt.Sprintf(": > %s/cx.up.start", mdir)}, nil,
+			[]string{fmt.Sprintf(": > %s/cx.cb.$RANDOM$RANDOM.start", mdir)},
+			[]string{fmt.Sprintf(": > %s/cx.ca.$RANDOM$RANDOM.end", mdir)}),
+	}
+	for i := 1; i <= sc.NR; i++ {
+		if i%2 == 0 {
+			tasks[i].Context = "cx"
+		}
+	}
+	tr, err := runner.NewTaskRunner(runner.WithContexts(ctxs))
 	if err != nil {
 		res.DriverProblem = err.Error()
 		return out()
